@@ -440,7 +440,7 @@ def locate(src):
         for n in ast.walk(st):
             if isinstance(n, ast.Name) and n.id == "TZID": raise Untranslatable("_parse_date_value: TZID used outside the attach statement")
     if len(attach) != 1: raise Untranslatable("_parse_date_value: expected one `if TZID is not None:` statement")
-    return {"prefix": prefix, "parms": parms, "attach": attach, "rfc_args": [a.arg for a in rfc.args.args], "pdv_args": [a.arg for a in pdv.args.args]}
+    return {"pdv": pdv, "prefix": prefix, "parms": parms, "attach": attach, "rfc_args": [a.arg for a in rfc.args.args], "pdv_args": [a.arg for a in pdv.args.args]}
 
 def strip_docstring(body):
     return body[1:] if body and isinstance(body[0], ast.Expr) and isinstance(body[0].value, ast.Constant) and isinstance(body[0].value.value, str) else body
@@ -1089,6 +1089,39 @@ def translate_all(src):
                "    strings; `date_tzinfo` = the zone `parser.parse` gave the date (none = naive), result = the zone of the date appended -/\n"
                "def rrsAttach (TZID date_tzinfo : Option StrPy.Zone) : Py.R (Option StrPy.Zone) :=\n%s\n" % indent(body))
     fps["_rrulestr._parse_date_value[attach]"] = fingerprint(loc["attach"])
+    # 4. the whole of _parse_date_value: [parms] ; for datestr in date_value.split(','): parse (OverflowError -> ValueError) ; [attach] ; append ; return
+    pdv = loc["pdv"]
+    def cname(n): return getattr(n, "id", None)
+    rest = pdv.body[len(loc["parms"]):]
+    if not (len(rest) == 2 and isinstance(rest[0], ast.For) and isinstance(rest[1], ast.Return) and cname(rest[1].value) == "datevals"):
+        raise Untranslatable("_parse_date_value: statements after the parameter loop")
+    f2 = rest[0]
+    if not (cname(f2.target) == "datestr" and isinstance(f2.iter, ast.Call) and f2.iter.func.attr == "split" and cname(f2.iter.func.value) == "date_value"
+            and len(f2.iter.args) == 1 and len(f2.iter.args[0].value) == 1 and not f2.orelse and len(f2.body) == 3
+            and isinstance(f2.body[0], ast.Try) and f2.body[1] is loc["attach"][0]):
+        raise Untranslatable("_parse_date_value: loop over the date strings")
+    tr_, ap_ = f2.body[0], f2.body[2]
+    pc = tr_.body[0].value if len(tr_.body) == 1 and isinstance(tr_.body[0], ast.Assign) and cname(tr_.body[0].targets[0]) == "date" else None
+    if not (isinstance(pc, ast.Call) and isinstance(pc.func, ast.Attribute) and pc.func.attr == "parse" and cname(pc.func.value) == "parser"
+            and [cname(a) for a in pc.args] == ["datestr"] and {k.arg: cname(k.value) for k in pc.keywords} == {"ignoretz": "ignoretz", "tzinfos": "tzinfos"}
+            and len(tr_.handlers) == 1 and cname(tr_.handlers[0].type) == "OverflowError" and len(tr_.handlers[0].body) == 1
+            and isinstance(tr_.handlers[0].body[0], ast.Raise) and cname(tr_.handlers[0].body[0].exc.func) == "ValueError" and not tr_.orelse and not tr_.finalbody
+            and isinstance(ap_, ast.Expr) and isinstance(ap_.value, ast.Call) and ap_.value.func.attr == "append" and cname(ap_.value.func.value) == "datevals"
+            and [cname(a) for a in ap_.value.args] == ["date"]
+            and any(isinstance(st, ast.Assign) and cname(st.targets[0]) == "datevals" and isinstance(st.value, ast.List) and not st.value.elts for st in loc["parms"])):
+        raise Untranslatable("_parse_date_value: body of the loop over the date strings")
+    out.append("/-- translated from `rrule.py:_rrulestr._parse_date_value` (WHOLE method): the parameter loop (`rrsDateParms`), then for every `datestr` of\n"
+               "    `date_value.split('%s')`: `parser.parse(datestr, ignoretz=ignoretz, tzinfos=tzinfos)` (the function `parse`, given: C02; an\n"
+               "    OverflowError becomes ValueError), the zone attach statement (`rrsAttach`), `datevals.append(date)`; returns `datevals`.\n"
+               "    A date is the pair (what `parse` returned, its zone). -/\n"
+               "def rrsParseDateValue {D : Type} (parse : StrPy.Str → Py.R (D × Option StrPy.Zone)) (date_value : StrPy.Str) (parms : List StrPy.Str)\n"
+               "    (rule_tzids : StrPy.Dict) (tzids : StrPy.TzidsKind) : Py.R (List (D × Option StrPy.Zone)) :=\n"
+               "  (rrsDateParms parms rule_tzids tzids) >>= fun (TZID, value_found) =>\n"
+               "  (ICal.splitOnChar %s date_value).mapM (fun datestr =>\n"
+               "    (match parse datestr with | .error .OverflowError => .error .ValueError | r => r) >>= fun date =>\n"
+               "    (rrsAttach TZID date.2) >>= fun tzinfo =>\n"
+               "    .ok (date.1, tzinfo))\n" % (f2.iter.args[0].value, lean_char(f2.iter.args[0].value)))
+    fps["_rrulestr._parse_date_value"] = fingerprint([pdv])
     text, fp = translate_rrule_str(src)
     out.append(text); fps.update(fp)
     text, fp = translate_rule_parser(src)
